@@ -332,6 +332,18 @@ def primal_check(rec, ret_value, mode, held_objects=(), posthoc=None):
                 return
             d = float(np.max(np.abs(got - want))) if want.size else 0.0
             add("point_eval_inconsistent", "%s point evaluates %.3e away from the combination of its leaves" % (tag, d), d)
+        elif type(o).__name__ == "Constraint":
+            want = canon.expr_value(o.expression, GG, Fv, idx)
+            try:
+                got = float(o.eval())
+            except Exception as ex:
+                findings.append({"key": "held_object_eval_raises:" + type(ex).__name__,
+                                 "what": "%s Constraint .eval() raised %s after a finite solve: %s" % (tag, type(ex).__name__, str(ex)[:120]),
+                                 "defect": 1.0, "scale": 1.0, "grade": "violated"})
+                return
+            sc = scale * (1.0 + sum(abs(float(v)) for v in o.expression.decomposition_dict.values()) if not o.expression.get_is_leaf() else scale)
+            add("constraint_eval_inconsistent", "%s %s constraint evaluates to %.9g, the expression it compares with zero is worth %.9g"
+                % (tag, o.equality_or_inequality, got, want), abs(got - want), sc)
         elif isinstance(o, Expression):
             want = canon.expr_value(o, GG, Fv, idx)
             got = float(o.eval())
